@@ -149,6 +149,13 @@ def cases(seed, tier, shard, nshards):
         yield dict(kind='ordered', gid=len(g), edges=[[a, b, d['order']] for a, b, d in g.edges(data=True)], nodes=list(g.nodes),
                    how=rng.choice(['same', 'ints', 'str']), bond=rng.choice([0.3, 1, 1.5, 7]), sub=rng.randrange(10 ** 6),
                    features=['bond_orders'] + (['zero_order_edge'] if any(d['order'] == 0 for _, _, d in g.edges(data=True)) else []))
+    # the drawing entry point: several drawings in one process must each come out at the scale asked for
+    for _ in range(max(1, (cfg['mol'] // 6) // nshards)):
+        c = MC.random_cut_case(rng, rng.choice([3, 6, 10]), ctor='string')
+        if c is None:
+            continue
+        yield dict(kind='draw', string=c['base_string'] + '.' + c['frag_string'], bonds=rng.sample([0.4, 1, 1.75, 2.5, 3], 3),
+                   bond=0, sub=rng.randrange(10 ** 6), features=['draw_molecule_sequence'], gid=c['nheavy'], how='same')
     made = 0
     from . import c15
     while made < cfg['mol'] // nshards:
@@ -167,6 +174,46 @@ def cases(seed, tier, shard, nshards):
         made += 1
 
 
+def run_draw(case):
+    import os
+    os.environ.setdefault('MPLBACKEND', 'Agg')
+    import numpy as np
+    from cgsmiles import MoleculeResolver
+    del RECORDS[:]
+    before = COUNT[0]
+    viol = []
+    try:
+        import matplotlib
+        matplotlib.use('Agg')
+        import matplotlib.pyplot as plt
+        from cgsmiles.drawing import draw_molecule
+        cg, aa = MoleculeResolver.from_string(case['string']).resolve()
+    except Exception:
+        return {'violations': [], 'rejected': {'drawing_not_available_or_not_resolvable': 1}, 'nontrivial': False, 'cls': 'skipped'}
+    if aa.number_of_edges() == 0 or not nx.is_connected(aa):
+        return {'violations': [], 'rejected': {'no_bond_or_disconnected': 1}, 'nontrivial': False, 'cls': 'skipped'}
+    for b in case['bonds']:
+        fig, ax = plt.subplots()
+        try:
+            np.random.seed(case['sub'] % (2 ** 31))
+            _ax, pos = draw_molecule(aa, ax=ax, layout_method='vespr', default_bond=b)
+            d = [float(np.linalg.norm(np.asarray(pos[a], dtype=float) - np.asarray(pos[c], dtype=float))) for a, c in aa.edges]
+            mean = sum(d) / len(d)
+            if set(pos) != set(aa.nodes) or not all(np.all(np.isfinite(np.asarray(p, dtype=float))) for p in pos.values()):
+                viol.append(V('c19.draw_positions', f'{case["string"]}: draw_molecule(default_bond={b}) returned positions for {len(pos)} of {len(aa)} nodes / non-finite'))
+            elif not math.isclose(mean, b, rel_tol=1e-9):
+                viol.append(V('c19.draw_scale', f'{case["string"]}: drawings with default_bond {case["bonds"]} in one process; the one asked for {b} has mean bond length {mean!r}'))
+        except Exception as err:
+            viol.append(V('c19.draw_exception.' + type(err).__name__, f'{case["string"]}: draw_molecule(default_bond={b}) raised {type(err).__name__}: {err}'))
+        finally:
+            plt.close(fig)
+    for clause, msg in RECORDS:
+        viol.append(V(clause, f'{case["string"]} (inside draw_molecule): {msg}'))
+    del RECORDS[:]
+    return {'violations': viol, 'counters': {'postcondition_evaluations': COUNT[0] - before, 'drawings': len(case['bonds'])}, 'nontrivial': True,
+            'evaluations': len(case['bonds']), 'cls': ('draw', case['gid'], tuple(case['bonds'])), 'sample': case['string']}
+
+
 def run(case):
     import numpy as np
     from cgsmiles.graph_layout import vespr_layout
@@ -175,6 +222,8 @@ def run(case):
     before = COUNT[0]
     rng = random.Random(case['sub'])
     viol = []
+    if case['kind'] == 'draw':
+        return run_draw(case)
     if 'string' in case:
         from cgsmiles import MoleculeResolver
         try:
